@@ -18,11 +18,15 @@ RULE = ("kinds tri.ctor/views/sets/arith/mul/solve/empty/hist for n = 1..12 (eve
         "(the unit tests' class), equal magnitudes with random signs / axes, entries from {0,-0.0,1,-1,2,1/2,...; +-i, 0.6+0.8i}, s*tridiag(-1,2,-1), s*I, diagonal matrices with zeros on the diagonal, f64/complex "
         "entries alternating between 2^200 and 2^-200, x vectors / right-hand sides (zero, ones, alternating, a unit vector, first/last only, special draws) in views, mul "
         "and solve; strictly dominant systems with special off-diagonals (also at 2^+-(150..400)); arithmetic with every special scalar (0, -0.0, 1, -1, 2, 1/2, +-i, unit "
-        "modulus) and mismatched sizes over f64 and Complex<f64> too; kind tri.hist: every ordered pair of the 17 mutating operations (IndexMut on each diagonal, "
-        "transpose_in_place, transpose, clone, += -= *= /= s, neg, T*s, T/s, s*T, T+T2, T-T2, resize) over every constructor (with_vecs, with_vectors, with_elements, "
-        "new + IndexMut), the state dumped after the first and all views (accessors, every index, convert, transpose, det, product, solve) taken after the second "
-        "(quick: a seeded third of the 289 pairs; thorough: all).  Float oracles: f64 arithmetic (s*T included) must equal the one IEEE operation per stored entry, "
-        "complex products/quotients to 1e-13, complex det to 1e-11*perm|T| against exact Q(i) elimination, and a structurally zero pivot (zero diagonal entry next to a zero "
+        "modulus) and mismatched sizes over f64 and Complex<f64> too; kind tri.hist: ordered pairs of the 17 mutating operations (IndexMut on each diagonal, "
+        "transpose_in_place, transpose, clone, += -= *= /= s, neg, T*s, T/s, s*T, T+T2, T-T2, resize), the state dumped after the first and all views (accessors, "
+        "every index, convert, transpose, det, product, solve) taken after the second (quick: a seeded third of the 289 pairs; thorough: all 289); the element type "
+        "(Rat / f64 / Complex<f64>, about 3:2:1), the size (1..6) and the constructor (with_vecs, with_vectors, with_elements, new + IndexMut) are DRAWN per pair, not crossed "
+        "with it (a pair meets each constructor and element type as the seed varies); s*T exists as f64 * Tridiagonal<f64> only and always runs at f64, the other 16 operations "
+        "(*=, /=, T*s, T/s included) are drawn at Complex<f64> too; the operations that ran per element type are counted in the coverage (outcomes 'hist <elt> <op>').  "
+        "Float oracles: f64 neg, T+T2, T-T2, += s, -= s must equal the one IEEE operation per stored entry (as values); f64 scalar products and quotients (T*s, s*T, T/s, *=, /=) "
+        "must be the dense twin's entry to 2 ulp (the operation sequence is not pinned: x*(1/s) qualifies, dividing twice or skipping a diagonal does not), "
+        "complex products/quotients to 1e-13; in a history the reference continues from the implementation's dumped state after such an operation (tolerance once per operation); complex det to 1e-11*perm|T| against exact Q(i) elimination, and a structurally zero pivot (zero diagonal entry next to a zero "
         "off-diagonal entry) must be refused over floats as well.  distinct = distinct executor line; non-trivial = n >= 2 or a case that must panic")
 TRUSTED = ["Coq 8.16.1 kernel + vm_compute", "Rust executor /verif/harness (Rat = i128 rationals; panic message captured per call)",
            "python driver: generators, dense Fraction reference (own elimination / own pivot recurrence), stream comparators",
@@ -32,6 +36,8 @@ ASSUMPTIONS = ["Rust semantics of Vec/usize as modelled (checked indexing, debug
                "thomas_dominant_never_refuses, thomas_backward_error and thomas_dominant_backward_stable are stated over Coq's reals and use the "
                "standard-library real-number axioms (sig_forall_dec, functional_extensionality_dep); every other theorem is closed under the global context",
                "the sampled cases are where model and code were compared; the theorems are about the model",
+               "Complex<f64> data is drawn within 2^+-200: beyond 2^+-511 the unscaled complex modulus/division return NaN (the recorded cause "
+               "cplx-sqmod-range of C01/C02/C15); not drawn, not suppressed",
                "f64 backward stability for diagonally dominant systems: proved in the standard model of rounding (relative error u per operation, no "
                "underflow/overflow), searched (1e-11 normwise) on the IEEE instance that is tied to the implementation"]
 UNPROVED = ["backward stability of the IEEE binary64 / Complex<f64> instance itself: thomas_backward_error and thomas_dominant_backward_stable are proved in the "
@@ -268,8 +274,22 @@ def ctor_state(elt, ctor):
         n = ctor[1]; return ([z] * (n - 1), [z] * n, [z] * (n - 1))
     raise ValueError(w)
 
-def apply_op(elt, t, op):
-    """the dense twin's operation, restricted to the three stored diagonals (T += s acts on the stored elements)"""
+def cmul_naive(a, b):
+    """(a+ib)(c+id) = (ac - bd) + i(ad + bc), one IEEE operation per step: the sequence of the modelled Complex<f64> product"""
+    a, b = complex(a), complex(b)
+    return complex(a.real * b.real - a.imag * b.imag, a.real * b.imag + a.imag * b.real)
+
+def cdiv_naive(a, b):
+    """(a+ib)/(c+id) = [(ac + bd) + i(bc - ad)] / (c^2 + d^2): the sequence of the modelled Complex<f64> quotient (no scaling)"""
+    a, b = complex(a), complex(b)
+    den = b.real * b.real + b.imag * b.imag
+    return complex(fdiv(a.real * b.real + a.imag * b.imag, den), fdiv(a.imag * b.real - a.real * b.imag, den))
+
+def apply_op(elt, t, op, mirror=False):
+    """the dense twin's operation, restricted to the three stored diagonals (T += s acts on the stored elements).
+    mirror=True (model side of a complex history only): products and quotients follow the operation sequence of the Gallina model
+    (which the arith families tie bit for bit to the code), so that the model's views are evaluated on the state the model reaches;
+    the oracle never uses it: it compares with python's product / numpy's scaled quotient up to rounding and resynchronises"""
     sub, main, sup = list(t[0]), list(t[1]), list(t[2])
     name, a = op[0], op[1:]
     n = len(main)
@@ -285,6 +305,8 @@ def apply_op(elt, t, op):
     if name == "clone": return (sub, main, sup)
     if name == "adds": return ew(lambda x: x + a[0])
     if name == "subs": return ew(lambda x: x - a[0])
+    if mirror and elt == 'cplx' and name in ("muls", "scale"): return ew(lambda x: cmul_naive(x, a[0]))
+    if mirror and elt == 'cplx' and name in ("divs", "div"): return ew(lambda x: cdiv_naive(x, a[0]))
     if name in ("muls", "scale"): return ew(lambda x: x * a[0])
     if name == "lscale": return ew(lambda x: a[0] * x)
     if name in ("divs", "div"): return ew((lambda x: x / a[0]) if elt == 'rat' else (lambda x: fdiv(x, a[0])))
@@ -318,12 +340,14 @@ def hist_line_term(elt, ctor, ops):
         elif name == "views": parts.append("(@run_views %s %s %s)" % (A(elt), F(elt), t3_coq(elt, t)))
         elif name == "mul": parts.append("(@run_mul %s %s %s %s)" % (A(elt), F(elt), t3_coq(elt, t), coq_vec(elt, a[0])))
         elif name == "solve": parts.append("(@run_solve %s %s %s %s)" % (A(elt), F(elt), t3_coq(elt, t), coq_vec(elt, a[0])))
-        else: t = apply_op(elt, t, op)
+        else: t = apply_op(elt, t, op, mirror=True)
     # the model side of a history: the model's single-shot runners on the state the dense twin has reached
     return line, "List.concat %s" % coq_list(parts)
 
 MUTS = ["set-main", "set-sub", "set-sup", "tip", "tr", "clone", "adds", "subs", "muls", "divs", "neg", "scale", "div", "lscale", "addt", "subt", "resize"]
-INEXACT_CPLX = ("muls", "divs", "scale", "div")      # complex products/quotients: judged with a tolerance in the arith families, not replayed here
+# scalar products / quotients over floats: the stored result is demanded up to rounding (f64: 2 ulp per entry; complex: 1e-13 of the
+# modulus), and the reference continues from the implementation's state at the next dump / views
+INEXACT_FLOAT = ("muls", "divs", "scale", "div", "lscale")
 
 def gen_mut(rng, elt, n, m):
     """one valid mutating op of class m on an n x n matrix"""
@@ -558,8 +582,7 @@ def generate(rng, tier):
     todo = g.shuffle(pairs) if thorough else g.shuffle(pairs)[:len(pairs) // 3]
     for k, (m1, m2) in enumerate(todo):
         elt = ['rat', 'rat', 'f64', 'rat', 'cplx', 'f64'][k % 6]
-        if "lscale" in (m1, m2): elt = 'f64'
-        elif elt == 'cplx' and (m1 in INEXACT_CPLX or m2 in INEXACT_CPLX): elt = 'rat'
+        if "lscale" in (m1, m2): elt = 'f64'          # s * T exists as f64 * Tridiagonal<f64> only
         n = [3, 1, 2, 4, 5, 2, 3, 6][g.below(8)]
         h = gen_hist(g, elt, n, m1, m2, ["vecs", "vectors", "elements", "new"][g.below(4)])
         cases.append(mk(elt, "hist", h, "history-" + elt, True))
@@ -662,6 +685,20 @@ def same_val(a, b):
         return all((x == y) or (x != x and y != y) for x, y in ((a.real, b.real), (a.imag, b.imag)))
     return a == b
 
+def _ordbits(x):
+    """monotone integer image of a (non-NaN) double: neighbouring doubles are neighbouring integers, -0.0 and 0.0 coincide"""
+    b = f64_bits(x)
+    return b if b < (1 << 63) else (1 << 63) - b
+
+def near_val(a, b, ulps=2, rel=1e-13):
+    """results of a scalar product / quotient over floats: the property demands the dense twin's VALUE, it does not pin the operation
+    sequence (x/s and x*(1/s) are both the dense twin's entry).  f64: equal as values, or both finite and at most `ulps` units in the
+    last place apart; Complex<f64>: close_c (the parts of a complex product carry the rounding of the modulus)"""
+    if same_val(a, b): return True
+    if isinstance(a, complex) or isinstance(b, complex): return isfinite(complex(a)) and isfinite(complex(b)) and close_c(a, b, rel)
+    if not (isfinite(a) and isfinite(b)): return False
+    return abs(_ordbits(a) - _ordbits(b)) <= ulps
+
 def valid_shape(t):
     n = len(t[1])
     return n >= 1 and len(t[0]) == n - 1 and len(t[2]) == n - 1
@@ -718,7 +755,7 @@ def expect_tri_tol(c, what, n, s, m, p):
     return None
 
 def det_ref(elt, t):
-    """exact determinant of the dense twin (rat / f64: Fractions; complex: mpmath at 60 digits) and perm|T| (the continuant of
+    """exact determinant of the dense twin (rat / f64: Fractions; complex: exact Gaussian elimination over Q(i)) and perm|T| (the continuant of
     the absolute values: any backward-stable evaluation of the determinant is within c*n*eps*perm|T| of the exact value)"""
     n = len(t[1])
     D = dense_of(t, elt)
@@ -926,13 +963,16 @@ def arith_steps(elt, t, t2, s):
         return [[f(x, y) for x, y in zip(da, db)] for da, db in zip(a, b)]
     if exact: dv = lambda x: x / s
     else: dv = lambda x: fdiv(x, s)
-    tolm = (elt == 'cplx')           # complex product / quotient: value up to rounding of the parts; everything else is one IEEE operation per stored entry
+    # scalar products / quotients: the value of the dense twin's entry up to rounding -- complex: 1e-13 of the modulus (the formula is not
+    # pinned); f64: 2 ulp per entry (x/s and x*(1/s) both qualify; dividing twice or leaving a diagonal out does not); every other
+    # operation (neg, +, -, += s, -= s) is one IEEE operation per stored entry, bit for bit as values
+    tolm = 'cplx' if elt == 'cplx' else ('ulp' if elt == 'f64' else False)
     div0 = exact and s == 0          # exact tier: division by zero must be refused; floats: IEEE quotient (inf / nan), tied to the model
     steps = [("neg", ew(lambda x: -x, t), False, False),
              ("T + T2", ew(lambda x, y: x + y, t, t2), n != n2, False),
              ("T - T2", ew(lambda x, y: x - y, t, t2), n != n2, False),
              ("T * s", ew(lambda x: x * s, t), False, tolm)]
-    if elt == 'f64': steps.append(("s * T", ew(lambda x: s * x, t), False, False))
+    if elt == 'f64': steps.append(("s * T", ew(lambda x: s * x, t), False, tolm))
     steps += [("T / s", None if div0 else ew(dv, t), div0, tolm),
               ("T += s", ew(lambda x: x + s, t), False, False),
               ("T -= s", ew(lambda x: x - s, t), False, False),
@@ -950,7 +990,8 @@ def judge_arith(c, elt, t, t2, s):
         if c.is_panic(): return "%s panicked" % what
         if elt != 'rat' and s == 0 and what in ("T / s", "T /= s"):
             c.tri(); continue         # float division by zero: inf / nan patterns, tied to the model only
-        if tol: r = expect_tri_tol(c, what, n, exp[0], exp[1], exp[2])
+        if tol == 'cplx': r = expect_tri_tol(c, what, n, exp[0], exp[1], exp[2])
+        elif tol == 'ulp': r = expect_tri(c, what + " (2 ulp per entry)", n, exp[0], exp[1], exp[2], eq=near_val)
         else: r = expect_tri(c, what, n, exp[0], exp[1], exp[2], eq=(None if elt == 'rat' else same_val))
         if r: return r
     return None
@@ -979,9 +1020,21 @@ def _oracle(case, items):
     if kind == "hist":
         t = ctor_state(elt, m["ctor"])
         if c.is_panic(): return "constructor %s panicked on well-shaped arguments" % m["ctor"][0]
+        loose = 0
         for k, op in enumerate(m["ops"]):
             what = "op %d %s" % (k, op[0])
             heq = None if elt == 'rat' else same_val       # the state of a history is the result of arithmetic: equality of values
+            if loose and op[0] in ("dump", "views"):
+                # `loose` scalar products / quotients over floats since the last state dump: the stored entries are demanded up to
+                # rounding (2 ulp / 1e-13 each); the reference then continues from the implementation's state, so that a rounding
+                # accepted here is not charged again to a later exact operation (a sum that cancels)
+                c2 = Cur(c.it, elt); c2.p = c.p
+                r = expect_tri(c2, what + " (state after the preceding operations, scalar products/quotients up to rounding)", len(t[1]), t[0], t[1], t[2],
+                               eq=(lambda u, v: near_val(u, v, 2 * loose, 1e-13 * loose)))
+                if r: return r
+                c2.p = c.p; got = c2.tri()
+                t = (got[1], got[2], got[3]); loose = 0
+                _count("hist %s state resynchronised after scalar product/quotient" % elt)
             if op[0] == "dump": r = expect_tri(c, what + " (state after the preceding operations)", len(t[1]), t[0], t[1], t[2], eq=heq)
             elif op[0] == "views": r = judge_views(c, elt, t, eq=heq)
             elif op[0] == "mul": r = judge_mul(c, elt, t, op[1])
@@ -989,6 +1042,8 @@ def _oracle(case, items):
             else:
                 if c.is_panic(): return "%s: valid operation panicked (%s)" % (what, c.panic())
                 t = apply_op(elt, t, op); r = None
+                if elt != 'rat' and op[0] in INEXACT_FLOAT: loose += 1
+                _count("hist %s %s" % (elt, op[0]))
             if r: return "%s: %s" % (what, r)
         if not c.done(): return "answer has %d trailing items" % (len(c.it) - c.p)
         return None
